@@ -251,6 +251,8 @@ pub struct Tok {
     pub s: String,
     /// only white space may precede this token (pragma internals)
     pub ws_only_before: bool,
+    /// inside a pragma: this token may follow the previous one without any gap (`^0.8.0`, `0.8.0<0.9.0`, `0.8.0;`)
+    pub glue_ok: bool,
 }
 
 #[derive(Clone, Debug)]
@@ -278,10 +280,13 @@ pub struct Rendered {
 
 impl Rendered {
     fn t(&mut self, s: &str) {
-        self.toks.push(Tok { s: s.to_string(), ws_only_before: false });
+        self.toks.push(Tok { s: s.to_string(), ws_only_before: false, glue_ok: false });
     }
     fn tw(&mut self, s: &str) {
-        self.toks.push(Tok { s: s.to_string(), ws_only_before: true });
+        self.toks.push(Tok { s: s.to_string(), ws_only_before: true, glue_ok: false });
+    }
+    fn twg(&mut self, s: &str, glue_ok: bool) {
+        self.toks.push(Tok { s: s.to_string(), ws_only_before: true, glue_ok });
     }
     fn enter(&mut self, id: Id, kind: &'static str) -> usize {
         let i = self.nodes.len();
@@ -312,18 +317,86 @@ pub fn render(f: &File) -> Rendered {
     r
 }
 
+/// The tokens of a pragma's raw value: comments dropped, operators (`||`, `>=`, `<=`, `>`, `<`, `=`, `^`, `~`) and the
+/// atoms between them; each with a flag saying whether it may follow its predecessor without a gap.
+pub fn pragma_value_tokens(raw: &str) -> Vec<(String, bool)> {
+    // drop comments
+    let b: Vec<char> = raw.chars().collect();
+    let mut clean = String::new();
+    let mut i = 0;
+    while i < b.len() {
+        if b[i] == '/' && i + 1 < b.len() && b[i + 1] == '*' {
+            let mut j = i + 2;
+            while j + 1 < b.len() && !(b[j] == '*' && b[j + 1] == '/') {
+                j += 1;
+            }
+            i = (j + 2).min(b.len());
+            clean.push(' ');
+        } else if b[i] == '/' && i + 1 < b.len() && b[i + 1] == '/' {
+            while i < b.len() && b[i] != '\n' && b[i] != '\r' {
+                i += 1;
+            }
+            clean.push(' ');
+        } else {
+            clean.push(b[i]);
+            i += 1;
+        }
+    }
+    let c: Vec<char> = clean.chars().collect();
+    let ops = ["||", ">=", "<=", ">", "<", "=", "^", "~"];
+    let mut out: Vec<(String, bool, bool)> = vec![]; // (text, is operator, preceded by a gap in the source)
+    let mut i = 0;
+    let mut gap = true;
+    while i < c.len() {
+        if c[i].is_whitespace() {
+            gap = true;
+            i += 1;
+            continue;
+        }
+        let rest: String = c[i..].iter().take(2).collect();
+        if let Some(op) = ops.iter().find(|o| rest.starts_with(**o)) {
+            out.push((op.to_string(), true, gap));
+            i += op.chars().count();
+            gap = false;
+            continue;
+        }
+        let mut j = i;
+        while j < c.len() && !c[j].is_whitespace() && !matches!(c[j], '|' | '>' | '<' | '=' | '^' | '~') {
+            j += 1;
+        }
+        if j == i {
+            // a lone `|`
+            j = i + 1;
+        }
+        out.push((c[i..j].iter().collect(), false, gap));
+        i = j;
+        gap = false;
+    }
+    let mut res = vec![];
+    for k in 0..out.len() {
+        let glue = if k == 0 {
+            out[0].1 // `solidity^0.8.0`
+        } else {
+            let (prev_op, cur_op) = (out[k - 1].1, out[k].1);
+            (prev_op != cur_op) || (prev_op && cur_op && out[k - 1].0 == "||")
+        };
+        res.push((out[k].0.clone(), glue));
+    }
+    res
+}
+
 fn r_item(r: &mut Rendered, it: &Item) {
     match it {
         Item::Pragma(id, name, value) => {
             r.enter(*id, "PragmaDirective");
             r.t("pragma");
             r.tw(name);
-            // the constraints of a version range are separate tokens of the language (solang's lexer hands the
-            // whole value over as one raw string): layouts may change the white space between them
-            for part in value.split_whitespace() {
-                r.tw(part);
+            // operators and versions of the value are separate tokens of the language (solang's lexer hands the whole
+            // value over as one raw string): layouts may change the gaps between them
+            for (part, glue) in pragma_value_tokens(value) {
+                r.twg(&part, glue);
             }
-            r.tw(";");
+            r.twg(";", true);
             r.leave();
         }
         Item::Import(id, toks) => {
